@@ -107,3 +107,40 @@ pub fn resolve_both() {
     assert!(state(&a.m) == state(&b.m), "independent resolutions do not converge");
     sym::reach(1);
 }
+
+/// three concurrent edits of object `a` (two updates to different values and one update-or-deletion) give up to
+/// three live leaves; every leaf is chosen; the resolution propagates. params: []
+pub fn resolve_three() {
+    let (mut a, mut b) = base_pair(doc(true, "x", "y"));
+    let mut c = Rep::new();
+    c.pull(&a);
+    a.m.update(doc(true, "p", "y")).expect("update a");
+    a.m.commit(None).expect("commit a");
+    b.m.update(doc(true, "q", "y")).expect("update b");
+    b.m.commit(None).expect("commit b");
+    edit(&c);
+    a.pull(&b);
+    a.pull(&c);
+    let winner = a.m.get_winner("a").expect("winner");
+    let mut leaves: Vec<String> = a.m.get_conflicting("a").expect("conflicting").into_iter().collect();
+    leaves.push(winner.clone());
+    sym::observe_i64(leaves.len() as i64);
+    assert!(leaves.len() >= 2, "concurrent different edits did not conflict");
+    let chosen = leaves[sym::choose(leaves.len())].clone();
+    let value_at_chosen = a.m.get_value("a", Some(&chosen)).expect("value at chosen revision");
+    a.m.resolve_as("a", &chosen).expect("resolve_as");
+    assert!(!a.m.in_conflict().contains("a"), "object still in conflict after resolve_as");
+    assert!(a.m.get_conflicting("a").unwrap().is_empty(), "conflicting revisions remain after resolve_as");
+    if is_deletion(&chosen) {
+        assert!(is_deletion(&a.m.get_winner("a").unwrap()), "resolved towards a deletion but the winner is not a deletion");
+    } else {
+        assert!(a.m.get_value("a", None).unwrap() == value_at_chosen, "visible value differs from the chosen revision");
+    }
+    a.m.commit(None).expect("commit resolution").expect("resolution produced no block");
+    b.pull(&a);
+    c.pull(&a);
+    assert!(same_state(&b.m, &a.m), "resolution did not propagate to the second replica");
+    assert!(same_state(&c.m, &a.m), "resolution did not propagate to the third replica");
+    assert!(b.m.in_conflict().is_empty() || !b.m.in_conflict().contains("a"), "conflict reappears on a receiving replica");
+    sym::reach(1);
+}
